@@ -63,7 +63,11 @@ def _call_props(postf, extra):
         n = Y.n + extra
         for lbl, g in postf(Y.arr, Y.n, out, n).items():
             st.assume(g)
-        return VArr((n,), out, 'ivec', 'i')
+        res = VArr((n,), out, 'ivec', 'i')
+        # for a well-formed tensor all mode sizes and ranks are >= 1
+        if M.quick_unsat(list(ex.axioms) + list(st.pc) + [z3.Not(T.wf(Y.arr, Y.n))]):
+            res.pos = True
+        return res
     return h
 
 
@@ -226,3 +230,34 @@ def u_add(U):
         R = p.deref(o.value)
         U.post('fresh-result', p, z3.BoolVal(isinstance(o.value, VRef) and o.value.oid not in (Y1.oid, Y2.oid)))
         add_post_and_lemmas(U, p, R.arr, R.n, A1, A2, d, AX)
+
+
+# ----------------------------------------------------------------------------------------------
+# props.erank
+
+@unit('props.erank', props=('C01', 'C11'))
+def u_erank(U):
+    """erank(Y): for d = 2 the only rank; for d >= 3 the non-negative root x of  a x^2 + b x = sum_k n_k r_k r_{k+1}
+    with a = sum of the inner mode sizes (> 0, so no division by zero), b = r_0 n_0 + n_{d-1} r_d."""
+    fn = U.func('props', 'erank')
+    ex = U.executor(fn, axioms=T.axioms('shape'))
+    ex.nl_exact = True
+    st = U.state()
+    Y, arr, d = S.tt_param(st, 'Y')
+    st.vars.update(Y=Y)
+    res = U.run(ex, st, pre=[T.wf(arr, d)])
+    U.cover('precondition-satisfiable', U.pre, axioms=ex.axioms)
+    for p, o in res:
+        if o.kind != 'return':
+            U.post('no-exception', p, False, axioms=ex.axioms)
+            continue
+        x = Z(o.value)
+        if 'a' not in p.vars:
+            U.post('two-cores-report-the-only-rank', p, z3.And(d == 2, x == T.d2(arr[0])), axioms=ex.axioms)
+            continue
+        a, b, sz = Z(p.vars['a']), Z(p.vars['b']), Z(p.vars['sz'])
+        U.post('three-or-more-cores-take-the-quadratic-branch', p, d >= 3, axioms=ex.axioms)
+        U.post('inner-mode-sizes-sum-to-a-positive-number', p, a >= 1, axioms=ex.axioms)
+        U.post('boundary-term', p, b == T.d1(arr[0]) + T.d1(arr[d - 1]), axioms=ex.axioms)
+        U.post('defining-quadratic', list(p.pc), M.to_real(a) * x * x + M.to_real(b) * x == M.to_real(sz))
+        U.post('non-negative-root', list(p.pc), x >= 0)
